@@ -45,7 +45,11 @@ SUB3_QUICK = ["int2", "str", "ch", "list", "closure2"]     # two different strin
 USER = [("c1", "\\a -> [a]"), ("c2", "\\a, b -> [a, b]"), ("c3", "\\a, b, c -> [a, b, c]"), ("cv", "\\...xs -> xs"),
         ("cd", "\\a, b = 5 -> [a, b]"), ("m2", "memoize(\\a, b -> [a, b])"), ("fl", "flip(\\a, b -> [a, b])"),
         ("co", "(\\a -> [a]) >>> (\\a -> [a, a])"), ("pa", "(\\a, b, c -> [a, b, c])(_, 9, _)"), ("plus1", "(+ 1)"),
-        ("fan", "(\\a -> a) &&& (\\a -> [a])"), ("par", "(\\a -> [a]) *** (\\a -> a)"), ("onf", "(..) on (\\a -> [a])")]
+        ("fan", "(\\a -> a) &&& (\\a -> [a])"), ("par", "(\\a -> [a]) *** (\\a -> a)"), ("onf", "(..) on (\\a -> [a])"),
+        # one callable per remaining way the interpreter represents a function value (Func variants of src/core.rs): stored-last /
+        # stored-first partial applications, list / chain / index / slice sections with two holes, lifted fan-out, field accessors
+        ("pal", "zip([5, 6])"), ("palm", "merge({1: 0})"), ("pa1", "([7, 8] zip)"), ("pa1m", "(1 -)"), ("ls", "[_, 9, _]"), ("chs", "(_ ++ [0] ++ _)"),
+        ("ixs", "_[_]"), ("sls", "_[_:_]"), ("lf", "lift((\\a -> [a]), 7, (\\a, b -> [a, b]))"), ("sym", "(::fa)")]
 PRE = ["struct Foo (fa, fb)"] + ["p_%s := %s" % (n, s) for n, s in POOL] + ["%s := %s" % (n, s) for n, s in USER]
 
 BIN_FORMS = [
